@@ -321,7 +321,11 @@ func c17Exec(t *testing.T, scn c17Scenario) (o c17Obs) {
 				opErr = err
 				break
 			}
-			_, _, opErr = checkpoint.DelStaleCheckpoint(cli, scn.hashName(scn.IDs[0]), scn.IDs[0], c17Stale, true)
+			gid := scn.IDs[0] // the reported id the index knows (current id first)
+			if scn.hashName(gid) == "" {
+				gid = scn.IDs[1]
+			}
+			_, _, opErr = checkpoint.DelStaleCheckpoint(cli, scn.hashName(gid), gid, c17Stale, true)
 			cli.Close()
 		default:
 			o.machinery = "harness: unknown operation " + scn.Op
@@ -387,6 +391,9 @@ func c17Exec(t *testing.T, scn c17Scenario) (o c17Obs) {
 				}
 				if !kept {
 					o.gcLost = append(o.gcLost, fmt.Sprintf("id %s..: newest entry db%d offset %d (mtime age %s)", id[:4], best.DB, best.Offset, time.Duration(best.AgeNs)))
+				}
+				if hv := tgt.Get(0, config.CheckpointKeyHashKey); hv == nil || string(hv.Hash[id]) != name {
+					o.gcLost = append(o.gcLost, fmt.Sprintf("id %s..: its entry in the checkpoint index (-> %s) is gone", id[:4], name))
 				}
 			}
 		}
@@ -649,6 +656,43 @@ func c17Scenarios(tier string) []c17Scenario {
 				}
 				if c%5 == 0 {
 					add(c17Scenario{Label: lab, Op: "gc-del", Local: c17NameOld, Hash: [][2]string{{c17IDA, c17NameOld}}, Entries: es, Extra: lay.extra})
+				}
+				// the stored checkpoint's id is what the source reports as its SECOND id (master_replid2):
+				// the window between a source fail-over and the first successful PSYNC + SetRunId
+				withID := func(id string) []c17Entry {
+					o := append([]c17Entry(nil), es...)
+					for i := range o {
+						o[i].ID = id
+					}
+					return o
+				}
+				add(c17Scenario{Label: lab + "/stored-under-second-id", Op: "gc-cron", Local: c17NameOld, Hash: [][2]string{{c17IDB, c17NameOld}}, Entries: withID(c17IDB), Extra: lay.extra})
+				if c%5 == 0 {
+					add(c17Scenario{Label: lab + "/stored-under-second-id", Op: "gc-del", Local: c17NameOld, Hash: [][2]string{{c17IDB, c17NameOld}}, Entries: withID(c17IDB), Extra: lay.extra})
+				}
+				if c%4 == 0 {
+					// both reported ids hold entries (an interrupted re-id): the second id's entries as enumerated,
+					// a copy of its newest entry under the current id in the same database, written last (most recent mtime)
+					old := withID(c17IDB)
+					best := 0
+					for i := range old {
+						if old[i].Offset > old[best].Offset || (old[i].Offset == old[best].Offset && old[i].AgeNs < old[best].AgeNs) {
+							best = i
+						}
+					}
+					// the copy was written after every entry of the second id: its mtime is the most recent one
+					young := old[0].AgeNs
+					for _, e := range old {
+						if e.AgeNs < young {
+							young = e.AgeNs
+						}
+					}
+					cp := c17Entry{DB: old[best].DB, Name: c17NameOld, ID: c17IDA, Offset: old[best].Offset, AgeNs: young - 1}
+					add(c17Scenario{Label: lab + "/stored-under-both-ids", Op: "gc-cron", Local: c17NameOld, Hash: [][2]string{{c17IDB, c17NameOld}, {c17IDA, c17NameOld}}, Entries: append(old, cp), Extra: lay.extra})
+				}
+				if c%6 == 0 {
+					// the stored id is neither of the reported ones: everything stale may go, nothing else may break
+					add(c17Scenario{Label: lab + "/stored-under-unreported-id", Op: "gc-cron", Local: c17NameOld, Hash: [][2]string{{c17IDZ, c17NameOld}}, Entries: withID(c17IDZ), Extra: lay.extra})
 				}
 			}
 		}
